@@ -322,9 +322,29 @@ def run_to_completion(state: State, external_event: Union[dict, Event]) -> State
                     head = flow_state.heads[head_uid]
                     element = get_element_from_head(state, head)
                     if element is not None and is_match_op_element(element):
-                        matching_score = _compute_event_matching_score(
-                            state, flow_state, head, event
-                        )
+                        try:
+                            matching_score = _compute_event_matching_score(
+                                state, flow_state, head, event
+                            )
+                        except Exception as e:
+                            # A runtime error in a match statement (e.g. an invalid regular
+                            # expression) only fails the related flow
+                            log.warning(
+                                "Flow '%s' failed due to Colang runtime exception while matching: %s",
+                                flow_state.flow_id,
+                                e,
+                                exc_info=True,
+                            )
+                            colang_error_event = Event(
+                                name="ColangError",
+                                arguments={
+                                    "type": str(type(e).__name__),
+                                    "error": str(e),
+                                },
+                            )
+                            _push_internal_event(state, colang_error_event)
+                            heads_failing.append(head)
+                            continue
 
                         if matching_score > 0.0:
                             # Successful event match
@@ -909,8 +929,6 @@ def _advance_head_front(state: State, heads: List[FlowHead]) -> List[FlowHead]:
             # We only advance merging heads if all internal events were processed
             actionable_heads.append(head)
             continue
-        elif head.status == FlowHeadStatus.ACTIVE:
-            head.position += 1
 
         if flow_state.status == FlowStatus.WAITING:
             flow_state.status = FlowStatus.STARTING
@@ -918,6 +936,11 @@ def _advance_head_front(state: State, heads: List[FlowHead]) -> List[FlowHead]:
         flow_finished = False
         flow_aborted = False
         try:
+            if head.status == FlowHeadStatus.ACTIVE:
+                # Moving the head onto a match statement already evaluates its event
+                # reference, which can fail like any other statement of the flow
+                head.position += 1
+
             new_heads = slide(state, flow_state, flow_config, head)
 
             # Advance all new heads created by a head fork
